@@ -173,6 +173,15 @@ class Serde:
             x = p.payload
             items = x.items if isinstance(x, VecV) else (x.fields if isinstance(x, Agg) else [])
             return base64.b64encode(bytes(items)).decode()
+        if isinstance(p, Opaque) and p.tag == 'exec_data':
+            if p.payload is None: return base64.b64encode(b'').decode()
+            js = json.dumps(self.tj(p.payload), separators=(',', ':')).encode()
+            n = len(js); var = b''
+            while True:
+                b7 = n & 0x7f; n >>= 7
+                var += bytes([b7 | (0x80 if n else 0)])
+                if not n: break
+            return base64.b64encode(b'\x0a' + var + js).decode()
         if isinstance(p, Opaque) and p.tag == 'instantiate_data':
             return base64.b64encode(b'\x0a' + bytes([len(p.payload.s)]) + p.payload.s.encode()).decode()
         raise ValueError('binary payload %r' % (p,))
